@@ -287,6 +287,7 @@ func runC19(c *Ctx) {
 		}
 	}
 	ruleSkeletons(c, "", "R19.4")
+	ruleEnumModelMerge(c, "R19.5")
 	if nEnums < 240 {
 		r.Broken("R19.1", "enum count", fmt.Sprintf("only %d defining enum types found", nEnums))
 	}
@@ -384,4 +385,71 @@ func checkEnumType(c *Ctx, p *packages.Package, pk, typ string, tn *types.TypeNa
 			r.OK(r3, key, c.Pos(tn.Pos()), fmt.Sprintf("all %d constants use only labelled bits below %d", len(consts), es.N))
 		}
 	}
+}
+
+// R19.5: the generator's enum model is accumulated consistently. processDefinition builds one outEnum per
+// definition file, Convert merges the outEnums of the same name coming from several (included) files. Every
+// field of outEnum that processDefinition keeps updating after constructing the literal (i.e. derives from the
+// entries: Values today) must also be brought up to date by the merge step — otherwise what the template
+// renders from that field (e.g. a bit-scan bound) describes the first file only.
+func ruleEnumModelMerge(c *Ctx, rule string) {
+	r := c.R
+	r.Rule(rule, "generator model agreement: every field of conversion.outEnum that processDefinition updates per enum entry (after constructing the literal) is also updated where Convert merges enums of the same name from several definition files", 1)
+	pd := c.FnOpt("pkg/conversion", "processDefinition")
+	cv := c.FnOpt("pkg/conversion", "Convert")
+	if pd == nil || cv == nil {
+		r.Broken(rule, "generator functions", "processDefinition / Convert not found")
+		return
+	}
+	r.Functions[fnQual(pd)] = true
+	r.Functions[fnQual(cv)] = true
+	fieldsStored := func(fn *ssa.Function) map[string]string {
+		out := map[string]string{}
+		lit := map[ssa.Instruction]bool{}
+		for _, a := range litAllocs(fn, "conversion.outEnum") {
+			if a.Referrers() == nil {
+				continue
+			}
+			for _, rf := range *a.Referrers() {
+				if fa, ok := rf.(*ssa.FieldAddr); ok && fa.Referrers() != nil && fa.Block() == a.Block() {
+					for _, rr := range *fa.Referrers() {
+						if st, ok := rr.(*ssa.Store); ok && st.Block() == a.Block() {
+							lit[st] = true
+						}
+					}
+				}
+			}
+		}
+		for _, in := range allInstrs(fn) {
+			st, ok := in.(*ssa.Store)
+			if !ok || lit[st] {
+				continue
+			}
+			if f, _ := fieldOfAddr(st.Addr); f != nil && fieldStructName(st.Addr) == "conversion.outEnum" {
+				out[f.Name()] = c.Pos(st.Pos())
+			}
+		}
+		return out
+	}
+	acc := fieldsStored(pd)
+	mrg := fieldsStored(cv)
+	var probs []string
+	for f, pos := range acc {
+		if _, ok := mrg[f]; !ok {
+			probs = append(probs, fmt.Sprintf("outEnum.%s is accumulated per entry in processDefinition (%s) but not when Convert merges the enum from several definition files: "+
+				"an enum spread over an included and an including file is generated from the first file's %s only", f, pos, f))
+		}
+	}
+	sort.Strings(probs)
+	r.Check(len(probs) == 0 && len(acc) > 0, rule, "outEnum accumulation vs merge", c.Pos(cv.Pos()), fmt.Sprintf("accumulated %v ⊆ merged %v", strKeys(acc), strKeys(mrg)),
+		orStr(strings.Join(probs, "; "), "no per-entry accumulation into outEnum found in processDefinition"))
+}
+
+func strKeys(m map[string]string) []string {
+	var ks []string
+	for k := range m {
+		ks = append(ks, k)
+	}
+	sort.Strings(ks)
+	return ks
 }
